@@ -311,7 +311,11 @@ func Replay(spec Spec, path []string) ([]Violation, error) {
 			}
 		}
 		if found == nil {
-			return out, fmt.Errorf("replay diverged: op %q not enabled after %v", name, s.Path)
+			var en []string
+			for _, o := range ops {
+				en = append(en, o.Name)
+			}
+			return out, fmt.Errorf("replay diverged: op %q not enabled after %v (enabled: %v)", name, s.Path, en)
 		}
 		c := Child(s, name)
 		found.Run(c)
